@@ -96,6 +96,7 @@ Definition meth1 (m : string) (r a : val) : outcome :=
   | "wrapping_add", VN x, VN y => Ret (VN (wadd x y))
   | "add", VN x, VN y => if x + y <? W then Ret (VN (x + y)) else Ovf     (* <*mut u8>::add: addresses are numbers *)
   | "offset", VN x, VN y => if x + y <? W then Ret (VN (x + y)) else Ovf  (* <*mut T>::offset with a non-negative count, in elements *)
+  | "offset_from", VPtr x _, VN y => if y <=? x then Ret (VN (x - y)) else Stuck   (* distance in bytes from y up to the pointee's address; a negative distance is outside the fragment *)
   | "max", VN x, VN y => Ret (VN (N.max x y))
   | "min", VN x, VN y => Ret (VN (N.min x y))
   | "unwrap_or", VSome v, _ => Ret v
@@ -126,6 +127,7 @@ Definition meth0 (m : string) (r : val) : outcome :=
   | "is_none", VSome _ => Ret (VB false)
   | "is_none", VNone => Ret (VB true)
   | f, VRec fs => match lookup f fs with Some v => Ret v | None => Stuck end   (* layout.size() / .align() / field *)
+  | f, VPtr _ (VRec fs) => match lookup f fs with Some v => Ret v | None => Stuck end   (* field through &self *)
   | _, _ => Stuck
   end.
 
